@@ -156,3 +156,69 @@ impl Drop for FdGuard {
         }
     }
 }
+
+// ------------------------------------------------------------------------------------------
+// command-line tools
+
+pub const BIN_DIR: &str = "/verif/target/repo-bins/release";
+
+pub fn zstd_encode(bytes: &[u8]) -> Vec<u8> {
+    zstd::encode_all(bytes, 3).expect("zstd encode")
+}
+
+pub fn zstd_decode(bytes: &[u8]) -> Result<Vec<u8>, String> {
+    zstd::decode_all(bytes).map_err(|e| format!("zstd decode: {e}"))
+}
+
+/// A scratch directory under /verif/target/tmp that is removed on drop.
+pub struct Scratch(pub std::path::PathBuf);
+
+impl Scratch {
+    pub fn new(tag: &str) -> Self {
+        static N: std::sync::atomic::AtomicU64 = std::sync::atomic::AtomicU64::new(0);
+        let n = N.fetch_add(1, std::sync::atomic::Ordering::Relaxed);
+        let p = std::path::PathBuf::from(format!("/verif/target/tmp/{tag}-{}-{n}", std::process::id()));
+        let _ = std::fs::create_dir_all(&p);
+        Scratch(p)
+    }
+    pub fn path(&self, name: &str) -> std::path::PathBuf {
+        self.0.join(name)
+    }
+}
+
+impl Drop for Scratch {
+    fn drop(&mut self) {
+        let _ = std::fs::remove_dir_all(&self.0);
+    }
+}
+
+pub struct RunOut {
+    pub code: Option<i32>,
+    pub stdout: Vec<u8>,
+    pub stderr: String,
+}
+
+/// Runs one of the repository's tools with stdin bytes; kills it after 60 s.
+pub fn run_tool(bin: &str, args: &[String], stdin: &[u8]) -> Result<RunOut, String> {
+    use std::io::Write;
+    use std::process::{Command, Stdio};
+    let mut child = Command::new(format!("{BIN_DIR}/{bin}"))
+        .args(args)
+        .stdin(Stdio::piped())
+        .stdout(Stdio::piped())
+        .stderr(Stdio::piped())
+        .spawn()
+        .map_err(|e| format!("cannot spawn {bin}: {e}"))?;
+    let mut sin = child.stdin.take().unwrap();
+    let data = stdin.to_vec();
+    let w = std::thread::spawn(move || {
+        let _ = sin.write_all(&data);
+    });
+    let out = child.wait_with_output().map_err(|e| format!("wait {bin}: {e}"))?;
+    let _ = w.join();
+    Ok(RunOut {
+        code: out.status.code(),
+        stdout: out.stdout,
+        stderr: String::from_utf8_lossy(&out.stderr).to_string(),
+    })
+}
